@@ -1105,12 +1105,27 @@ def solve(hyps, goal, timeout_ms):
     qf = _instantiate(list(hyps), neg)
     if qf is not None and not any(z3.is_quantifier(x) for x in neg):
         s = z3.Solver()
-        s.set('timeout', timeout_ms)
+        s.set('timeout', max(5000, timeout_ms // 3))
         for h in qf + neg:
             s.add(h)
         r = s.check()
         if r == z3.unsat:
             return 'SUCCESS', None, time.time() - t0, 'qf-instantiated'
+    # z3's nonlinear arithmetic is sensitive to its random seed: a query that takes 1 s with one seed can run for
+    # minutes with another.  Several short attempts with different seeds before the long one.
+    if qf is not None and not any(z3.is_quantifier(x) for x in neg):
+        for seed in (1, 7, 23, 101):
+            s = z3.Solver()
+            s.set('timeout', max(3000, timeout_ms // 6))
+            s.set('random_seed', seed)
+            try:
+                s.set('smt.random_seed', seed)
+            except Exception:
+                pass
+            for h in qf + neg:
+                s.add(h)
+            if s.check() == z3.unsat:
+                return 'SUCCESS', None, time.time() - t0, 'qf-instantiated(seed %d)' % seed
     s = z3.Solver()
     s.set('timeout', timeout_ms)
     for h in hyps:
